@@ -3,6 +3,7 @@ Args, not_before_inputs, seq_eval over Sys); tie: engine A on the two traversal 
 on DAG programs (trace validation, value and dependency-order oracles)."""
 from __future__ import annotations
 
+import os
 from concurrent.futures import Future
 
 from .common import Ctx, InfraError, run_check
@@ -135,17 +136,74 @@ def traversal_part(ctx: Ctx):
     return n
 
 
+def session_part(ctx: Ctx, only=None):
+    """Sessions on one real executor: list objects reused, changed between uses, aliased inside other lists, dropped and their
+    addresses recycled.  Each consumer must receive Args.subst of ITS OWN snapshot (the model carries nothing from call to call)."""
+    from .common import finish_json_child, start_json_child
+
+    nsess = 6 if ctx.tier == "quick" else 40
+    rounds = 22 if ctx.tier == "quick" else 40
+    plans = [only] if only else [{"seed": ctx.rng.randrange(1 << 30), "mode": ("block" if i % 3 != 2 else "step"), "rounds": rounds} for i in range(nsess)]
+    bad, nconsumers, recycled = [], 0, 0
+    for k in range(0, len(plans), 6):
+        batch = plans[k:k + 6]
+        handles = [start_json_child(["vh.session_runner", str(p["seed"]), p["mode"], str(p["rounds"])]) for p in batch]
+        for p, h in zip(batch, handles):
+            out = finish_json_child(h, 240)
+            if out is None:
+                out = finish_json_child(start_json_child(["vh.session_runner", str(p["seed"]), p["mode"], str(p["rounds"])]), 600)   # alone, once more
+            if out is None:
+                raise InfraError("session runner produced no output for %r" % (p,))
+            if not out["pin"].startswith(os.environ.get("VERIF_REPO", "/repo")):
+                raise InfraError("session runner imported executorlib from " + out["pin"])
+            recycled += out["ids_recycled"]
+            reqs = [{"op": "args_traverse", "args": c["args"], "kwargs": c["kwargs"], "done": [True] * len(out["vals"]), "vals": out["vals"]}
+                    for c in out["consumers"]]
+            model = ctx.model.ask_many(reqs) if reqs else []
+            for c, mo in zip(out["consumers"], model):
+                nconsumers += 1
+                shared = any("l" in a for a in c["args"]) or any("l" in v for _, v in c["kwargs"])
+                ctx.case({"session": p, "round": c["round"]}, nontrivial=shared)
+                ctx.count("session.consumer_with_list" if shared else "session.consumer_plain")
+                if c["received"] != mo["subst"]:
+                    bad.append({"session": p, "executor": out["executor"], "round": c["round"], "operations_of_session": out["log"],
+                                "submitted": {"args": c["args"], "kwargs": c["kwargs"]}, "values_of_futures": out["vals"],
+                                "received": c["received"], "model": mo["subst"]})
+            for op in out["log"]:
+                ctx.count("session.op." + op)
+            if not out.get("shutdown_returned", True):
+                ctx.count("session.shutdown_slow")
+    ctx.count("session.list_ids_recycled", recycled)
+    ctx.oblige("correspondence over sessions: every consumer of every session received Args.subst of its own snapshot (lists reused, "
+               "changed between uses, aliased, dropped and re-allocated)", not bad, f"{len(plans)} sessions, {nconsumers} consumers")
+    if bad:
+        ctx.violation({"kind": "session_subst", "failing_input": True},
+                      {"what": "a call received something else than the results of its own input futures in their positions (Args.subst of the "
+                               "arguments as submitted; theorems subst_determined, receives_input_values): state carried between calls of one "
+                               "resolver", "kind": "session", **bad[0]})
+    return {"sessions": len(plans), "consumers": nconsumers}
+
+
 def body(ctx: Ctx):
     if ctx.replay_file:
+        import json
+
+        data = json.load(open(ctx.replay_file))
+        if data.get("kind") == "session":
+            return session_part(ctx, only=data["session"])
         return sysprop.replay(ctx, "C03", ctx.replay_file)
     ntrees = traversal_part(ctx)
+    sess = session_part(ctx)
     n = 80 if ctx.tier == "quick" else 800
     res = sysprop.campaign(ctx, "C03", PROFILE, n, CORPUS, REQUIRED)
     res["argument_trees"] = ntrees
+    res["sessions"] = sess
     res["rule"] = ("(a) random argument trees (futures at top level, in kwargs values, in nested lists to depth 3, and inside tuples/dicts where "
                    "executorlib does not look) against Args.futuresOf/subst; (b) engine B DAG programs of 2-7 calls (chains, fan-out, fan-in, "
                    "diamonds, shared inputs, inputs done before submission), gates steering completion relative to submission and polling, "
-                   "block 1-3 workers and per-call underneath; oracles: values = sequential evaluation, exit(input) < enter(dependent)")
+                   "block 1-3 workers and per-call underneath; oracles: values = sequential evaluation, exit(input) < enter(dependent); (c) sessions "
+                   "on one real executor in which list objects are handed to several calls, changed in between (append / replace / pop / refill), "
+                   "aliased inside other lists, dropped and re-allocated: every consumer receives Args.subst of its own snapshot")
     res["trusted_base_extra"] = sysprop.TRUST
     return res
 
